@@ -45,6 +45,8 @@ type c02ctx struct {
 	childIdx   map[*FuncInfo]func(ast.Expr) int
 	silent     bool // r1 only fills the maps
 	folderRule string
+	constOpVar types.Object       // the constOp table variable
+	constOpLit *ast.CompositeLit // its literal
 }
 
 var arithOps = map[token.Token]bool{token.ADD: true, token.SUB: true, token.MUL: true, token.QUO: true, token.REM: true,
@@ -114,6 +116,9 @@ func (x *c02ctx) readTables() bool {
 					cl, ok := vs.Values[0].(*ast.CompositeLit)
 					if !ok {
 						continue
+					}
+					if name == "constOp" {
+						x.constOpVar, x.constOpLit = ic.Info.Defs[vs.Names[0]], cl
 					}
 					for _, e := range cl.Elts {
 						if kv, ok := e.(*ast.KeyValueExpr); ok {
@@ -407,7 +412,7 @@ func (x *c02ctx) folders(rule string) {
 		var badPos token.Pos
 		ast.Inspect(fi.Decl.Body, func(n ast.Node) bool {
 			call, ok := n.(*ast.CallExpr)
-			if !ok || !isCallTo(ic.Info, call, "go/constant.BinaryOp", "go/constant.UnaryOp", "go/constant.Shift", "go/constant.Compare") {
+			if !ok || !(isCallTo(ic.Info, call, "go/constant.BinaryOp", "go/constant.UnaryOp", "go/constant.Shift", "go/constant.Compare") || x.tokenForwarder(call)) {
 				return true
 			}
 			for _, arg := range call.Args {
@@ -1002,6 +1007,61 @@ func (x *c02ctx) r3() {
 	if nCases < 150 {
 		r.Errorf("R02.3: only %d single-class kind cases analysed", nCases)
 	}
+}
+
+// tokenForwarder reports whether call invokes an in-package function that hands one of its
+// token.Token parameters, unchanged, to go/constant (equalConst -> compareConst(n, token.EQL)).
+func (x *c02ctx) tokenForwarder(call *ast.CallExpr) bool {
+	ic := x.ic
+	f, ok := calleeOf(ic.Info, call).(*types.Func)
+	if !ok || f.Pkg() != ic.Pk.Types {
+		return false
+	}
+	fi := ic.G.Funcs[f]
+	if fi == nil || fi.Decl.Body == nil {
+		return false
+	}
+	sg := f.Type().(*types.Signature)
+	var tokParams []types.Object
+	for i := 0; i < sg.Params().Len(); i++ {
+		if types.TypeString(sg.Params().At(i).Type(), nil) == "go/token.Token" {
+			tokParams = append(tokParams, sg.Params().At(i))
+		}
+	}
+	if len(tokParams) == 0 {
+		return false
+	}
+	// no parameter is reassigned, and each is used as the token of a go/constant call
+	forwarded := false
+	reassigned := false
+	ast.Inspect(fi.Decl.Body, func(m ast.Node) bool {
+		switch s := m.(type) {
+		case *ast.AssignStmt:
+			for _, l := range s.Lhs {
+				if id := identOf(l); id != nil {
+					for _, p := range tokParams {
+						if ic.Info.ObjectOf(id) == p {
+							reassigned = true
+						}
+					}
+				}
+			}
+		case *ast.CallExpr:
+			if isCallTo(ic.Info, s, "go/constant.BinaryOp", "go/constant.UnaryOp", "go/constant.Shift", "go/constant.Compare") {
+				for _, a := range s.Args {
+					if id := identOf(a); id != nil {
+						for _, p := range tokParams {
+							if ic.Info.ObjectOf(id) == p {
+								forwarded = true
+							}
+						}
+					}
+				}
+			}
+		}
+		return true
+	})
+	return forwarded && !reassigned
 }
 
 // childIndexOf returns the operand child an extractor call takes its argument from.
